@@ -75,14 +75,21 @@ Proof. exact get2_missing. Qed.
 Theorem C17_present : forall t a b v, NoDup (map fst t) -> In (a, b, v) t -> get2 t a b = v.
 Proof. exact get2_present. Qed.
 
-(* the caller (task_ranking.py): the dictionaries it builds from the triplets form an instance like any other, so the ranking it
-   writes to 3mr_ranks.tsv satisfies the clauses; the ranked features are exactly the plain (non AND_REL) columns other than the
-   label that have a (feature, label) triplet *)
-Theorem C17_caller_valid : forall lbl T, spec_3mr (build_inst lbl T) (ranking_df (build_inst lbl T)).
+(* the caller (task_ranking.py): [build_inst lbl T = Some d] iff no non-empty table (relevance / relation / redundancy rows of
+   the triplets) has min = max — there the code's float normalisation is 0/0 = NaN and no instance exists.  When it exists it is
+   an instance like any other, so the ranking written to 3mr_ranks.tsv satisfies the clauses; the ranked features are exactly
+   the plain (non AND_REL) columns other than the label that have a (feature, label) triplet *)
+Theorem C17_caller_valid : forall lbl T d, build_inst lbl T = Some d -> spec_3mr d (ranking_df d).
 Proof. intros. apply model_spec. Qed.
-Theorem C17_caller_feats : forall lbl T f,
-  In f (feats (build_inst lbl T)) <-> f <> lbl /\ exists s, In (Plain f, Plain lbl, s) T.
+Theorem C17_caller_feats : forall lbl T d f, build_inst lbl T = Some d ->
+  (In f (feats d) <-> f <> lbl /\ exists s, In (Plain f, Plain lbl, s) T).
 Proof. exact caller_feats. Qed.
+Theorem C17_caller_degenerate : forall lbl T, build_inst lbl T = None <->
+  degenerate (map snd (relevance_rows lbl T)) = true \/ degenerate (map snd (relation_rows lbl T)) = true
+  \/ degenerate (map snd (redundancy_rows lbl T)) = true.
+Proof. exact caller_none. Qed.
+Theorem C17_degenerate_iff : forall l, degenerate l = true <-> l <> [] /\ qmin l == qmax l.
+Proof. exact degenerate_iff. Qed.
 
 Print Assumptions C17_perm.
 Print Assumptions C17_feats_are_keys.
@@ -101,3 +108,5 @@ Print Assumptions C17_missing_zero.
 Print Assumptions C17_present.
 Print Assumptions C17_caller_valid.
 Print Assumptions C17_caller_feats.
+Print Assumptions C17_caller_degenerate.
+Print Assumptions C17_degenerate_iff.
